@@ -14,6 +14,17 @@ from pbt import gens, oracles as o
 from pbt.core import import_dsw
 
 
+def shuffled_map(latter_map, seed):
+    """The order of successors inside a latter-map list is not specified; a caller's hand-built map may be unsorted."""
+    if seed is None:
+        return latter_map
+    import random
+    rng = random.Random(seed)
+    for values in latter_map.values():
+        rng.shuffle(values)
+    return latter_map
+
+
 def build_bundle(desc):
     import numpy
     dsw = import_dsw()
@@ -23,7 +34,7 @@ def build_bundle(desc):
         "k": graph["k"], "start": graph["start"], "accessor": accessor,
         "message": gens.bits_of(desc["bits"]), "table": gens.table_of(desc["table"]),
         "mask": numpy.array([int(c) for c in desc["mask"]], dtype=bool if desc["mask_bool"] else int),
-        "latter_map": dsw.accessor_to_latter_map(accessor),
+        "latter_map": shuffled_map(dsw.accessor_to_latter_map(accessor), desc.get("map_order")),
         "filter": gens.build_local_filter(desc["filter"]),
         "strand": desc["strand"], "corrupted": desc["corrupted"], "number": desc["number"],
         "matrix": None,
